@@ -722,7 +722,14 @@ def run_task(m, task):
                                 index=pd.Index(times.astype(np.int64) if intidx else times, name='time'), columns=list(pva.index))
             if not task["alt"]:
                 traj['VD'] = task.get("vd0", 0.0) * 1.0
+            # the nominal (reference) trajectory differs NOTICEABLY from the computed one (covariance-analysis mode): whatever is
+            # evaluated "at the nominal trajectory" must not silently be evaluated at the computed one (seeded change C11_3)
             nominal = traj + 1e-7
+            off = dict(VN=0.4, VE=-0.3, roll=0.8, pitch=-0.6, heading=1.5)
+            for c_, v_ in off.items():
+                nominal[c_] = nominal[c_] + v_
+            if task["alt"]:
+                nominal['VD'] = nominal['VD'] + 0.2
             incs = make_increments(m, times[0], times[1:], rng) if task.get("inc") else None
             if incs is None and task["models"] in ("full", "asym"):
                 gm, am = make_models(m, "bias", rng)
